@@ -954,7 +954,8 @@ def registry_clause(model, rep, funcs):
             # a freshness loop `while key in self._images` or a membership test of the key whose true-branch raises
             if c.kind == "test" and isinstance(c.node, (ast.While, ast.If)):
                 txt = norm_src(c.node.test)
-                if _key in txt and "self._images" in txt and (" in " in txt or " not in " in txt):
+                # membership idioms: `key in D`, `key not in D`, and the lookup with a default `D.get(key, default)` (differs from the default only if key is bound)
+                if _key in txt and "self._images" in txt and (" in " in txt or " not in " in txt or f"self._images.get({_key}" in txt):
                     if isinstance(c.node, ast.While):
                         return True
                     raises = any(isinstance(x, ast.Raise) for st in c.node.body + c.node.orelse for x in ast.walk(st))
